@@ -3,24 +3,24 @@ CONSTANTS
   NV = 2
   StabV = {}
   HasHf = FALSE
-  Cmds = {}
-  Rewrites = FALSE
+  Cmds = {"reset", "force_reset"}
+  Rewrites = TRUE
   NP = 1
   UseQueue = TRUE
   SkipQueue = FALSE
-  Faults = TRUE
+  Faults = FALSE
   FaultKinds = {"crash", "reject", "third"}
-  MaxC = 8
-  RepStatuses = {"SUCCESSFUL", "FAILED"}
-  Atomic = FALSE
+  MaxC = 9
+  RepStatuses = {"SUCCESSFUL"}
+  Atomic = TRUE
   ReportFine = FALSE
   AutoApprove = TRUE
-  Opts = {}
+  Opts = {"wait", "unwait"}
   ReportOnce = TRUE
-  MaxLevel = 26
+  MaxLevel = 13
   EmitJson = FALSE
-  PruneOnlyOwned = TRUE
-  PushOnlyChanged = TRUE
+  PruneOnlyOwned = FALSE
+  PushOnlyChanged = FALSE
   AtomicPush = TRUE
   FixSelect = TRUE
   FixDirect = TRUE
@@ -33,6 +33,9 @@ INVARIANT C19_Children
 PROPERTY C03_Green
 PROPERTY C08_FF
 PROPERTY C08_Foreign
-PROPERTY C12_Held
 PROPERTY C20_EntryFate
+PROPERTY C15_ManualKept
+PROPERTY C15_OwnOnly
+PROPERTY C15_LossyRefuses
+PROPERTY C10_CmdConsumed
 CHECK_DEADLOCK FALSE
